@@ -546,19 +546,17 @@ func (context *RunContext) encodeBody() ([]byte, error) {
 }
 
 func (context *RunContext) flush(headBuf, bodyBuf []byte) error {
-	file, err := os.OpenFile(context.Path, os.O_WRONLY, os.ModePerm)
-	defer file.Close()
-	if err != nil {
-		return err
-	}
-
-	_, err = file.Seek(0, 0)
+	// The file is replaced as a whole: a process that dies while it writes leaves the previous file, never a mixture of
+	// the new head and the old body
+	tmpPath := context.Path + ".tmp"
+	file, err := os.OpenFile(tmpPath, os.O_WRONLY|os.O_CREATE|os.O_TRUNC, 0666)
 	if err != nil {
 		return err
 	}
 
 	n, err := file.Write(headBuf)
 	if err != nil {
+		file.Close()
 		return err
 	}
 
@@ -566,13 +564,9 @@ func (context *RunContext) flush(headBuf, bodyBuf []byte) error {
 		panic("n != len(head data)")
 	}
 
-	_, err = file.Seek(int64(len(headBuf)), 0)
-	if err != nil {
-		return err
-	}
-
 	n, err = file.Write(bodyBuf)
 	if err != nil {
+		file.Close()
 		return err
 	}
 
@@ -580,7 +574,18 @@ func (context *RunContext) flush(headBuf, bodyBuf []byte) error {
 		panic("n != len(body data)")
 	}
 
-	return file.Sync()
+	err = file.Sync()
+	if err != nil {
+		file.Close()
+		return err
+	}
+
+	err = file.Close()
+	if err != nil {
+		return err
+	}
+
+	return os.Rename(tmpPath, context.Path)
 }
 
 func (context *RunContext) Flush() error {
